@@ -62,6 +62,8 @@ PROP_MODELS = {
     'C03': ['numpy.poly1d'],
     'C19': ['numpy.poly1d', 'numpy.roots'],
     'C05': ['sqrt', 'mutableseq'],
+    'C06': ['sqrt', 'trig', 'mutableseq'],
+    'C15': ['sqrt', 'numpy.poly1d', 'mutableseq'],
     'C08': ['sqrt', 'numpy.poly1d', 'numpy.roots', 'mutableseq'],
     'C14': ['numpy.poly1d', 'numpy.small', 'mutableseq'],
     'C09': ['mutableseq'],
@@ -70,6 +72,8 @@ PROP_MODELS = {
 }
 
 PROP_NOTES = {
+    'C06': ["scipy.integrate.quad(f,a,b): an uninterpreted value >= 0; its accuracy is not assumed, so nothing about accuracy is proved",
+            "numpy scalar arithmetic in QuadraticBezier.length: x/0 and log(0) yield inf/nan values (modelled), not exceptions"],
     'C19': ["per-shape: proofs for degrees/lengths 0..8 (rational_limit degrees 0..4), no claim beyond",
             "that the quotient of the first non-vanishing Taylor coefficients is the limit of f/g is assumed mathematics"],
     'C03': ["clause 'numerically to within rounding' is covered only by the bounded companion (coverage.bounded), never counted as proved"],
